@@ -304,11 +304,11 @@ type rtok struct {
 }
 
 type renderer struct {
-	r        *rng
-	layout   int // 0 tight, 1 spaced, 2 wild
-	semis    int // 0 always ';', 1 line breaks where ASI allows, 2 mixed
-	smartNL  bool // allow a line-break-only separator before a statement starting with ( or [ (smart-semicolon mode)
-	redundant int // 1/n chance of redundant parentheses (0 = never)
+	r         *rng
+	layout    int  // 0 tight, 1 spaced, 2 wild
+	semis     int  // 0 always ';', 1 line breaks where ASI allows, 2 mixed
+	smartNL   bool // allow a line-break-only separator before a statement starting with ( or [ (smart-semicolon mode)
+	redundant int  // 1/n chance of redundant parentheses (0 = never)
 	toks      []rtok
 	fn, bl    int
 	inner     []bool
@@ -678,7 +678,6 @@ func (w *renderer) gap(prev, next string, noLF, needNL bool) string {
 	}
 	return pick(w.r, opts)
 }
-
 
 // renderProgram renders a list of statement shapes; the canonical expected form is
 // progCanon(stmts).
